@@ -59,7 +59,7 @@ add("C02", "wire format",
     [H("vfH_rt_e2e", ["rt-e2e-end"], 400), H("vfH_wire_thresholds", ["thresholds-end"]), H("vfH_control_step", ["control-accepted", "control-refused"]),
      H("vfH_mask_keys", ["mask-keys-end"]), H("vfH_compress_toggle", ["toggle-end"]), H("vfH_prepared_seq", ["prepared-seq-end"]), H("vfH_invalid_req", ["invalid-req-end"]), TWIN("vfH_control_step")],
     [H("vfH_rt_e2e", ["rt-e2e-end"], 1800, {"tier": 1}), H("vfH_rt_e2e", ["rt-e2e-end"], 900, {"M": 2}), H("vfH_wire_thresholds", ["thresholds-end"], 900, {"tier": 1})],
-    ["as C01 for the write side; WriteControl: message type fully symbolic (all 2^64 ints), payload lengths {0,1,2,124,125,126,130}, symbolic payload, symbolic deadline",
+    ["as C01 for the write side; WriteControl: message type fully symbolic (all 2^64 ints), payload lengths {0,1,2,124,125,126,130}, symbolic payload, deadline from {none, expired, three distinct live ones} relative to the clock",
      "mask keys: 2 messages x 4 write programs x buffer sizes {2,8}: every client frame's key equals its own fresh 4-byte draw, in order; maskRand is crypto/rand.Reader after package initialisation"],
     ["quality of crypto/rand itself", "real deflate output", "frames longer than the thresholds tested (65537)"],
     ASSUME_COMMON, STUB_COMMON + [STUB_FLATE],
@@ -122,7 +122,7 @@ add("C08", "control frames and handlers",
 add("C09", "nothing after close",
     [H("vfH_close_seq", ["close-seq-end"]), H("vfH_close_sched", ["close-sched-end"], 300), H("vfH_prepared_seq", ["prepared-seq-end"]), TWIN("vfH_close_seq"), TWIN("vfH_close_sched")],
     [H("vfH_close_sched", ["close-sched-end"], 900, {"preempt": 3})],
-    ["sequential programs: optional complete message, optional open data writer (nothing / one frame flushed and more buffered), close written by 7 paths (WriteControl with symbolic deadline, WriteMessage, NextWriter+Write+Close, prepared close, default close handler, protocol-error close, read-limit close), then 2 of the 7 write APIs and Write/Close of the open writer; both roles; compression negotiated or not"],
+    ["sequential programs: optional complete message, optional open data writer (nothing / one frame flushed and more buffered), close written by 7 paths (WriteControl with any of 5 deadlines (none / expired / 3 live), WriteMessage, NextWriter+Write+Close, prepared close, default close handler, protocol-error close, read-limit close), then 2 of the 7 write APIs and Write/Close of the open writer; both roles; compression negotiated or not"],
     ["interleavings of concurrent writers / WriteControl callers / reader handlers (the schedule quantifier of the property): see the note in MANIFEST", "more than 2 later calls"],
     ASSUME_COMMON + [CLOCK], STUB_COMMON + [STUB_FLATE],
     LV + "Only the sequential half of the property (all programs, one goroutine at a time) is decided; the schedule quantifier is not.",
@@ -133,7 +133,7 @@ add("C10", "write failures fail-stop",
     [H("vfH_fault_write", ["fault-write-end"], 3000, {"tier": 1})],
     ["2-step write programs (6 programs incl. prepared, implicit close, WriteControl; payloads 1 and 37 bytes, buffer 4) x every index k of a write-side transport operation (SetWriteDeadline, Write, each Write of a two-buffer frame) x {error, timeout, short write + error}; then 2 later calls out of the 7 write APIs and Close of the open writer",
      "invalid requests: message type fully symbolic outside {1,2,8,9,10} through NextWriter / WriteMessage / WriteControl / NewPreparedMessage; control payload of 126 bytes through every API; control message larger than the buffer; before or after a valid message; with an instrumented pool",
-     "deadlines: 3 steps of SetWriteDeadline(symbolic time incl. zero) / WriteControl(symbolic deadline) / data messages; every transport Write is preceded by SetWriteDeadline with the deadline in force"],
+     "deadlines: 3 steps of SetWriteDeadline / WriteControl with deadlines from {none, expired, three distinct live ones} / data messages; every transport Write is preceded by SetWriteDeadline with the deadline in force"],
     ["transports that transmit more than they report", "programs longer than 2-3 steps"],
     ASSUME_COMMON, STUB_COMMON + [STUB_FLATE],
     LV, "trusted: engine translation, transport fault model")
@@ -169,7 +169,7 @@ add("C11", "concurrency contract",
     "trusted: engine translation, the scheduler's choice of scheduling points, the happens-before model of channels / sync.Mutex / sync.Once / pools")
 
 add("C12", "server handshake",
-    [H("vfH_upgrade_logic", ["upgrade-success", "upgrade-refused", "upgrade-post-hijack-failure"], 600), H("vfH_tokenlist_diff", ["tokenlist-end"], 300), H("vfH_key_diff", ["key-diff-end"], 300), TWIN("vfH_upgrade_logic")],
+    [H("vfH_upgrade_logic", ["upgrade-success", "upgrade-refused", "upgrade-post-hijack-failure"], 600), H("vfH_tokenlist_diff", ["tokenlist-end"], 300), H("vfH_key_diff", ["key-diff-end"], 300), H("vfH_offer_variants", ["offer-variants-end"], 300), TWIN("vfH_upgrade_logic")],
     [H("vfH_upgrade_logic", ["upgrade-success", "upgrade-refused"], 3000, {"tier": 1}), H("vfH_tokenlist_diff", ["tokenlist-end"], 2400, {"tier": 1})],
     ["Upgrade executed on requests one (thorough: two) dimension(s) away from a valid handshake: method, Connection / Upgrade token lists (symbolic case and whitespace, extra tokens, several header lines, near-miss tokens), version, key (missing, 24 arbitrary characters, base64 of 15 / 17 bytes; valid keys = base64 of 16 symbolic bytes), origin, CheckOrigin, subprotocol offers x server lists, application response headers with 3 arbitrary bytes (incl. CR/LF), extension offers x EnableCompression, hijack failure, transport fault at each of the first 3 post-hijack operations, HandshakeTimeout on/off",
      "tokenListContainsValue against the reference for every header line of <= 4 (thorough 6) arbitrary bytes and for grammar templates; isValidChallengeKey against the reference for every string of length 0,1,20,22,23,24,25,28 (real encoding/base64 decoder executed from SSA)"],
